@@ -1,4 +1,4 @@
-use crate::utils::{remove_digests, restore_disclosures};
+use crate::utils::{declared_hash_alg, remove_digests, restore_disclosures};
 use crate::{
     base64_hash, decode, encode, sd_jwt_parts,
     utils::{decode_claims_no_verification, generate_nonce, get_jwt_part, JWTPart},
@@ -88,8 +88,7 @@ impl Holder {
 
         let issuer_jwt = get_jwt_part(issuer_sd_jwt.as_str(), JWTPart::Claims)?;
         let mut issuer_jwt_claims = decode_claims_no_verification(issuer_jwt.as_str())?;
-        let algorithm = issuer_jwt_claims["_sd_alg"].as_str().unwrap_or("");
-        let algorithm = HashAlgorithm::try_from(algorithm)?;
+        let algorithm: HashAlgorithm = declared_hash_alg(&issuer_jwt_claims)?;
         let mut disclosure_paths = Vec::new();
         restore_disclosures(
             &mut issuer_jwt_claims,
@@ -214,8 +213,7 @@ impl Holder {
 
         if issuer_jwt_claims.get("cnf").is_some() {
             // build kb-jwt
-            let sd_alg =
-                HashAlgorithm::try_from(issuer_jwt_claims["_sd_alg"].as_str().unwrap_or(""))?;
+            let sd_alg: HashAlgorithm = declared_hash_alg(&issuer_jwt_claims)?;
             let nonce = generate_nonce(32);
             let iat = Utc::now().timestamp();
             let sd_hash = base64_hash(sd_alg, &presentation);
@@ -258,9 +256,7 @@ impl Holder {
 
         let (header, claims) = decode(&issuer_sd_jwt, key, validation)?;
 
-        match HashAlgorithm::try_from(claims["_sd_alg"].as_str().ok_or(Error::SDJWTRejected(
-            ("Issuer SD JWT must contain _sd_alg claim").to_string(),
-        ))?) {
+        match declared_hash_alg(&claims) {
             Ok(_) => {}
             Err(e) => {
                 return Err(Error::InvalidHashAlgorithm(e.to_string()));
@@ -296,8 +292,7 @@ impl Holder {
     ) -> Result<(Value, Value, Vec<DisclosurePath>), Error> {
         let (header, claims, disclosures) = Holder::verify_raw(issuer_token, key, validation)?;
         let mut updated_claims = claims.clone();
-        let algorithm = claims["_sd_alg"].as_str().unwrap_or("");
-        let algorithm = HashAlgorithm::try_from(algorithm)?;
+        let algorithm: HashAlgorithm = declared_hash_alg(&claims)?;
         let mut disclosure_paths = Vec::new();
         restore_disclosures(
             &mut updated_claims,
